@@ -209,11 +209,17 @@ impl Monitor for C11 {
             if frozen_hit || fault_sig.is_some() {
                 let mut exp2 = exp.clone();
                 let frozen = crate::seams::get_frozen();
+                // a sampled fault fails ONE call; two closed farms may have identical refunds
+                let mut sampled_left = out.report.fault_fired;
                 for f in closed.iter() {
                     let r = remainder(f);
                     let sig = format!("{}->{}:{}{}", fm, f.owner, r, f.farm_asset.denom);
-                    let undelivered = frozen.iter().any(|(d, rc)| *d == f.farm_asset.denom && rc == f.owner.as_str())
-                        || fault_sig.as_deref() == Some(sig.as_str());
+                    let by_freeze = frozen.iter().any(|(d, rc)| *d == f.farm_asset.denom && rc == f.owner.as_str());
+                    let by_fault = !by_freeze && sampled_left > 0 && fault_sig.as_deref() == Some(sig.as_str());
+                    if by_fault {
+                        sampled_left -= 1;
+                    }
+                    let undelivered = by_freeze || by_fault;
                     if undelivered {
                         add_delta(&mut exp2, f.owner.as_str(), &f.farm_asset.denom, -(r as i128));
                         add_delta(&mut exp2, &fm, &f.farm_asset.denom, r as i128);
